@@ -23,6 +23,8 @@ GROUPS = [b"g", b"h", b"org.x"]
 ARTIFACTS = [b"a", b"b", b"c", b"d", b"e", b"f"]
 VERSIONS = [b"1", b"2", b"3", b"1.5", b"2.0.1", b"4-SNAPSHOT"]
 PROP_NAMES = [b"v1", b"v2", b"v3", b"lib.version", b"grp", b"sc", b"bom.version"]
+# names that collide with Maven's model built-ins (rare in practice, decisive for the lookup priority)
+BUILTIN_LIKE = [b"project.version", b"pom.groupId", b"project.groupId", b"project.parent.version", b"version", b"groupId", b"pom.version"]
 JDK_SIMPLE = [b"11", b"11.0", b"11.0.8", b"1.8", b"17", b"1.8.0_292", b"21", b"17.0"]
 JDK_SIMPLE_RISKY = [b"11.0.7", b"1", b"1.8.0", b"17.0.1", b"2"]
 JDK_RANGES = [b"[1.8,)", b"[11,)", b"[1.8,11)", b"(,1.8]", b"[11,17)", b"[17,)", b"(,11]", b"[9,12)", b"[1.7,1.9)",
@@ -272,6 +274,8 @@ class LineageGen:
                    "jdk_risky", "mgmt_dup", "unresolved", "unmanaged", "missing_bom", "bad_packaging", "jdk_bad")}
         env = list(r.choice(self.envs))
         names = list(PROP_NAMES)
+        if r.random() < 0.25:
+            names += r.sample(BUILTIN_LIKE, r.randrange(1, 3))
         nanc = r.choice([0, 1, 1, 2, 2, 3, 4])
         nbom = r.choice([0, 0, 1, 1, 2, 3])
         if self.flag("bom_two_versions") or self.flag("bom_parent_builtin"):
